@@ -121,7 +121,46 @@ def degenerate_paths(rng, n):
         yield els, sc
 
 
+def lattice_paths(rng, n):
+    """paths whose points come from a 5 x 5 lattice (one third of them on the diagonal, one third repeating an earlier point): repeated points, zero-length
+    and collinear segments, cusps and loops arise by construction; scale 1e-2 .. 1e5, offset 0 .. 5e5; stroked with widths from 1/100 of the cell to
+    1000 (wider than the whole path), all joins / caps, half of them dashed.  (Port of the generator with which an independent agent found NaN outlines
+    on the unchanged tree, see known_findings.json.)"""
+    for _ in range(n):
+        scale = rng.choice([1e-2, 1.0, 100.0, 1e5])
+        off = rng.choice([0.0, 0.0, 1000.0, 5e5])
+        pts = []
+
+        def pt():
+            if pts and rng.randrange(3) == 0:
+                return rng.choice(pts)
+            x = rng.randrange(5)
+            y = x if rng.randrange(3) == 0 else rng.randrange(5)
+            p = (off + scale * x, off + scale * y)
+            pts.append(p)
+            return p
+        els = [('M', pt())]
+        for _ in range(1 + rng.randrange(4)):
+            k = rng.randrange(4)
+            els.append(('L', pt()) if k == 0 else ('Q', pt(), pt()) if k == 1 else ('C', pt(), pt(), pt()))
+        if rng.randrange(3) == 0:
+            els.append(('Z',))
+        tol = rng.choice([1e-3, 1e-2, 0.1, 1.0])
+        width = rng.choice([1e-2, 0.5, 2.0, 30.0, 1000.0])
+        pat, doff = [], 0.0
+        if rng.randrange(2) == 0:
+            d = rng.choice([0.5, 1.0, 3.0, 7.0]) * max(scale, 0.1)
+            pat, doff = [d, d * 0.5], rng.choice([0.0, 1.0, 2.5])
+        yield els, tol, width, rng.randrange(3), rng.randrange(3), pat, doff
+
+
 def generate(rng, tier):
+    for els, tol, width, join, cap, pat, doff in lattice_paths(rng, 400 if tier == 'quick' else 20000):
+        s = els_str(els)
+        yield total(f'path.stroke {H(width)} {join} {cap} {H(4.0)} {H(doff)} {len(pat)} {H(*pat)} {H(tol)} {s}'.replace('  ', ' '), 'stroke-lattice')
+        if rng.random() < 0.25:
+            yield total(f'path.flatten {H(tol)} {s}', 'flatten-lattice')
+            yield total(f'path.simplify {H(tol)} {rng.randint(0, 1)} {s}', 'simplify-lattice')
     n = 80 if tier == 'quick' else 4000
     for els, sc in degenerate_paths(rng, n):
         s = els_str(els)
